@@ -18,7 +18,7 @@ RULE = ("each case: a CHK file (k<=4, N<=6, segment size from {8k,16k,64,100}, 1
         "Non-trivial = >=2 reads touching a common segment, or any pause/stop event that took effect; distinct by whole case.")
 LEVEL_TEXT = "Random search over read ranges, consumer flow-control scripts and delivery orders against the byte-slice reference."
 ASSUMPTIONS = ["consumers follow the IPushProducer contract: resumeProducing only after pauseProducing, nothing after stopProducing", "honest servers (faults are C02/C03/C46)"]
-REQUIRED_CLASSES = ["guess<real", "concurrent", "overlap-same-segment", "pause-in-flight", "stop", "past-eof", "at-eof", "literal", "size-none", "cross-segment"]
+REQUIRED_CLASSES = ["read-issued-during-thread-work", "stop-during-thread-work", "guess<real", "concurrent", "overlap-same-segment", "pause-in-flight", "stop", "past-eof", "at-eof", "literal", "size-none", "cross-segment"]
 BUDGET = {"quick": 900, "thorough": 7200}
 
 
@@ -57,9 +57,20 @@ def cases(draw):
         off = pos()
         ln = draw(st.sampled_from(["none", "pos", "pos", "small", "huge", "zero"]))
         ln = {"none": None, "pos": max(0, pos() - off) or 1, "small": draw(st.integers(1, 20)), "huge": size * 3 + 7, "zero": 0}[ln]
-        ev = draw(st.lists(st.tuples(st.sampled_from(["w", "s"]), st.integers(0, 25), st.sampled_from(["pause", "pause", "resume", "stop"])).map(list), max_size=4))
-        reads.append({"off": off, "len": ln, "events": ev})
-    return {"hsalt": draw(st.integers(0, 15)), "threads": draw(st.sampled_from(["sync", "async"])), "k": k, "n": n, "seg": seg, "size": size, "fill": draw(st.integers(0, 3)), "reads": reads, "guess": draw(st.sampled_from([None, None, 16, 50, 200, 1000])),
+        ev = draw(st.lists(st.one_of(st.tuples(st.sampled_from(["w", "s"]), st.integers(0, 25), st.sampled_from(["pause", "pause", "resume", "stop"])),
+                                     # "d": while the j-th piece of work handed to the CPU thread pool (segment decode) is still out
+                                     st.tuples(st.just("d"), st.integers(0, 5), st.sampled_from(["pause", "stop", "stop"]))).map(list), max_size=4))
+        # the read is issued at the start, at scheduler step j, or while the j-th piece of thread-pool work is out
+        start = draw(st.sampled_from([None, None, None, ["s", draw(st.integers(0, 25))], ["d", draw(st.integers(0, 5))], ["d", draw(st.integers(0, 2))]]))
+        reads.append({"off": off, "len": ln, "events": ev, "start": start})
+    threads, warm = draw(st.sampled_from(["sync", "async"])), draw(st.booleans())
+    if len(reads) >= 2 and not lit and draw(st.integers(0, 5)) == 0:
+        # one read is stopped while the segment it asked for is being decoded, and another read for the same region arrives in that same moment
+        j = draw(st.integers(0, 2))
+        reads[0].update({"events": [["d", j, "stop"]], "start": None})
+        reads[-1].update({"start": ["d", j], "off": reads[0]["off"] + draw(st.integers(0, 3))})
+        threads, warm = "async", draw(st.sampled_from([True, True, False]))
+    return {"hsalt": draw(st.integers(0, 15)), "threads": threads, "k": k, "n": n, "seg": seg, "size": size, "fill": draw(st.integers(0, 3)), "reads": reads, "warm": warm, "guess": draw(st.sampled_from([None, None, 16, 50, 200, 1000])),
             "sched": draw(st.lists(st.integers(0, 12), max_size=draw(st.sampled_from([0, 20, 100]))))}
 
 
@@ -70,6 +81,7 @@ def run_shard(spec, ctx):
 def run_case(case, ctx):
     from vf import boot as _boot
     _boot.set_thread_mode(case.get("threads") == "async")      # defer_to_thread answered in a later reactor turn (as in production) or synchronously
+    _boot.hold_threads(False)
     from allmydata.immutable.upload import Data
     from allmydata.interfaces import DownloadStopped
     k, n, seg, size = case["k"], case["n"], case["seg"], case["size"]
@@ -90,8 +102,16 @@ def run_case(case, ctx):
             classes.add("guess<real" if case["guess"] < min(seg, size) else "guess>=real")
         reader = g.add_client()
         node = reader.nodemaker.create_from_cap(cap)
+        if case.get("warm"):
+            # the node has served a read before: it knows the real segment size and holds the hash trees
+            from vf.grid import read_node
+            w = g.run(read_node(node, 0, 1))
+            if w[0] != "ok":
+                ctx.fail("read-failed", "k=%d N=%d seg=%d size=%d: a one-byte read on an honest grid failed: %r" % (k, n, seg, size, w), exc="warm")
+                return
+            classes.add("warm-node")
         g.sched.choices, g.sched.ci = list(case["sched"]), 0
-        cons, ds, outs, took = [], [], [], []
+        cons, ds, took = [], [], []
         for rd in case["reads"]:
             c = Consumer({})
             c.effects = 0
@@ -100,6 +120,7 @@ def run_case(case, ctx):
                 if kind == "w":
                     c.wscript.setdefault(when + 1, act)
             c.sscript = [(when, act) for (kind, when, act) in rd["events"] if kind == "s"]
+            c.dscript = [(when, act) for (kind, when, act) in rd["events"] if kind == "d"]
             cons.append(c)
 
         def act(c, a):
@@ -128,24 +149,55 @@ def run_case(case, ctx):
                 if a:
                     act(c, a)
             c.write = write
-        for c, rd in zip(cons, case["reads"]):
-            o = []
-            d = node.read(c, rd["off"], rd["len"])
-            d.addBoth(o.append)
-            ds.append(d)
-            outs.append(o)
-        step = 0
+        outs = [[] for _ in cons]
+        started = [False] * len(cons)
+
+        def start(i):
+            if not started[i]:
+                started[i] = True
+                rd = case["reads"][i]
+                d = node.read(cons[i], rd["off"], rd["len"])
+                d.addBoth(outs[i].append)
+                if rd.get("start"):
+                    classes.add("read-issued-later")
+        for i, rd in enumerate(case["reads"]):
+            if not rd.get("start"):
+                start(i)
+        # from here on the results of work given to the CPU thread pool come back when the loop below says so
+        _boot.hold_threads(case.get("threads") == "async")
+        step, seen_held = 0, 0
         for _ in range(20000):
             boot.drain()
             for c in cons:
                 for (when, a) in c.sscript:
                     if when == step:
                         act(c, a)
+            for i, rd in enumerate(case["reads"]):
+                if rd.get("start") and rd["start"] == ["s", step]:
+                    start(i)
+            while seen_held < _boot._held_total[0]:
+                # a new piece of work is out in the thread pool: what the scripts want to happen meanwhile
+                for i, (c, rd) in enumerate(zip(cons, case["reads"])):
+                    for (when, a) in c.dscript:
+                        if when == seen_held and c.producer is not None and not c.stopped:
+                            act(c, a)
+                            classes.add(a + "-during-thread-work")
+                    if rd.get("start") == ["d", seen_held]:
+                        start(i)
+                        classes.add("read-issued-during-thread-work")
+                seen_held += 1
             boot.drain()
-            if all(outs):
+            if all(started) and all(outs):
                 break
             step += 1
+            if _boot.release_thread():
+                continue
             if not g.sched.step():
+                if not all(started):
+                    # quiescent before a late read's moment came: issue it now
+                    for i in range(len(cons)):
+                        start(i)
+                    continue
                 # quiescent: resume whoever is still paused (the script never did); if nobody is paused we are done (or hung)
                 paused = [c for c in cons if c.paused and not c.stopped]
                 if not paused:
@@ -203,6 +255,7 @@ def run_case(case, ctx):
         from allmydata.immutable.downloader.node import DownloadNode as _DN
         from allmydata.interfaces import DEFAULT_IMMUTABLE_MAX_SEGMENT_SIZE as _D
         _DN.default_max_segment_size = _D
+        _boot.hold_threads(False)
     nt = overlap or any(c.effects for c in cons)
     ctx.note(sig=repr(sorted(case.items())), nontrivial=nt, classes=sorted(classes),
              sample={"k": k, "n": n, "seg": seg, "size": size, "reads": case["reads"], "schedule": case["sched"][:16],
